@@ -26,7 +26,7 @@ import (
 func init() { commands["send"] = sendCmd }
 
 // init  limit=<n> mode=<B|S> cap=<n|-> refill=<n|-> path=<resp|err> rate=<n> burst=<n> conn=<0|1>
-// op    send seed=<n> chunks=<c1,c2,…|-> fail=<0|1> wt=<0|1> reset=<j|-> budget=<n|-> frm=<0|1>
+// op    send seed=<n> chunks=<c1,c2,…|-> fail=<0|1> wt=<0|1> reset=<j|-> budget=<n|-> frm=<0|1> stall=<0|1>
 
 var errRead = errors.New("verif: injected read error")
 var errConn = errors.New("verif: connection broken")
@@ -71,11 +71,25 @@ type scriptReader struct {
 	calls   int
 	resetAt int
 	onReset func()
+	// stall: at read call resetAt the body stalls (connection open, nothing arrives); the reset comes from
+	// elsewhere while the copy is parked in this Read, which returns only when the connection is closed
+	stall   <-chan struct{}
+	onStall func()
+	stalled bool
 }
 
 func (s *scriptReader) Read(p []byte) (int, error) {
 	call := s.calls
 	s.calls++
+	if call == s.resetAt && s.stall != nil {
+		s.onStall()
+		select {
+		case <-s.stall:
+		case <-time.After(20 * time.Second):
+			s.stalled = true // nobody closed the runtime's connection
+		}
+		return 0, errRead
+	}
 	if call == s.resetAt && s.onReset != nil {
 		s.onReset()
 	}
@@ -254,6 +268,17 @@ func doSend(si sendInit, ws []string, st *drv.Stats) (obs, check string, hang bo
 		}
 		go func() { <-resetCh; acked <- struct{}{} }()
 	}
+	if kvGet(ws, "stall") == "1" && fc != nil && si.mode == "S" && si.path == "resp" && !wt && resetAt >= 0 {
+		sr.stall = fc.closed
+		sr.onStall = func() {
+			resetSeen = true
+			go func() {
+				resetCh <- &interop.Reset{Reason: "timeout"}
+				<-resetCh
+				acked <- struct{}{}
+			}()
+		}
+	}
 	var rd io.Reader = sr
 	if wt {
 		rd = wtReader{sr}
@@ -325,7 +350,11 @@ func doSend(si sendInit, ws []string, st *drv.Stats) (obs, check string, hang bo
 	if resetSeen {
 		rs = 1
 	}
-	check = fmt.Sprintf("check prefix=%d paylen=%d maxwrite=%d resetseen=%d flushes=%d", prefix, total, maxw, rs, w.flushes)
+	st0 := 0
+	if sr.stalled {
+		st0 = 1
+	}
+	check = fmt.Sprintf("check prefix=%d paylen=%d maxwrite=%d resetseen=%d flushes=%d stalltimeout=%d", prefix, total, maxw, rs, w.flushes, st0)
 	return obs, check, false
 }
 
@@ -465,7 +494,7 @@ func genSendCase(r *rng.R, big bool) (sendInit, []string) {
 		sizes       []int
 		fail, wt    bool
 		reset, bud  int
-		frm         bool
+		frm, stall  bool
 	}
 	var ps []pend
 	chunkedWrite := si.mode == "S" && si.limit == -1 && !big && r.Chance(1, 12)
@@ -513,6 +542,8 @@ func genSendCase(r *rng.R, big bool) (sendInit, []string) {
 			p.reset = r.Intn(nReads(p.sizes) + 2)
 		}
 		p.frm = si.mode == "B" && r.Chance(1, 5)
+		// the runtime's body stalls (instead of continuing) at the read where the reset arrives
+		p.stall = p.reset >= 0 && si.conn && si.path == "resp" && !p.wt && r.Bool()
 		fw := p.total
 		if si.limit >= 0 && fw > int(si.limit)+1 {
 			fw = int(si.limit) + 1
@@ -550,7 +581,7 @@ func genSendCase(r *rng.R, big bool) (sendInit, []string) {
 			}
 			return strconv.Itoa(x)
 		}
-		ops = append(ops, fmt.Sprintf("send seed=%d chunks=%s fail=%d wt=%d reset=%s budget=%s frm=%d", p.seed, joinInts(p.sizes), b(p.fail), b(p.wt), o(p.reset), o(p.bud), b(p.frm)))
+		ops = append(ops, fmt.Sprintf("send seed=%d chunks=%s fail=%d wt=%d reset=%s budget=%s frm=%d stall=%d", p.seed, joinInts(p.sizes), b(p.fail), b(p.wt), o(p.reset), o(p.bud), b(p.frm), b(p.stall)))
 	}
 	return si, ops
 }
